@@ -60,8 +60,7 @@ def const_module(case, nk, seed):
     L.append("    use vrt::cst::COp;")
     L.append("    use vrt::{CaseDesc, FieldDesc, Kind, TypeTable};")
     s0 = len(L)
-    for h in case.get("helpers", []):
-        L += ["    " + l for l in emit.helper_decl(h)]
+    L += ["    " + l for l in emit.helpers_block(case)]
     mark("helpers", s0)
     s0 = len(L)
     L += ["    " + l for l in emit.bitfield_decl(case)]
